@@ -173,9 +173,14 @@ def random_basis(rng, nelem, small=False):
     basis = {}
     for el in elems:
         shells = []
+        prev = None
         for _ in range(rng.randint(1, 3 if small else 8)):
             K = rng.randint(1, 10)
             exps = sorted([round(rng.uniform(0.01, 5000.0), 6) for _ in range(K)], reverse=True)
+            if prev is not None and rng.random() < 0.35:
+                exps = list(prev)  # consecutive shells sharing their exponents (S then SP, P then P, ...) are legal
+                K = len(exps)
+            prev = exps
             if rng.random() < 0.2:
                 cols = [[round(rng.uniform(-2, 2), 7) or 0.5 for _ in range(K)] for _ in range(2)]
                 shells.append(("sp", exps, cols))
